@@ -947,19 +947,68 @@ pub fn main() {
             return;
         }
         // --- refs
+        // server-side value of every tag at S2 (for the tag-following tolerance below)
+        let server_tags: BTreeMap<String, String> = h
+            .s2
+            .tags
+            .iter()
+            .map(|(n, tv)| {
+                (
+                    format!("refs/tags/{n}"),
+                    match tv.annotated {
+                        Some(i) => ids.tag_objs[i].clone(),
+                        None => ids.commits[tv.commit].clone(),
+                    },
+                )
+            })
+            .collect();
+        // git skips automatic tag following altogether when a branch update was rejected (do_fetch() bails out before
+        // the back-fill); gitoxide still creates the tags whose objects arrived. Both are defensible, tolerate it.
+        let git_skipped_tag_following = !git_ok && s.tagopt == TagOpt::Follow;
+        let index_of: BTreeMap<&String, usize> = ids.commits.iter().enumerate().map(|(i, id)| (id, i)).collect();
         let mut differences = Vec::new();
+        // all differences are "git fast-forwarded, gitoxide kept the old value" where new commits are older than the old tip
+        let mut only_skewed_ff = true;
         for (name, id) in &refs_a {
             match refs_b.get(name) {
                 Some(other) if other == id => {}
-                Some(other) => differences.push(format!("{name}: gitoxide {id}, git {other}")),
-                None => differences.push(format!("{name}: gitoxide {id}, git has no such ref")),
+                Some(other) => {
+                    differences.push(format!("{name}: gitoxide {id}, git {other}"));
+                    let skewed_ff = refs_before.get(name) == Some(id)
+                        && match (index_of.get(id), index_of.get(other)) {
+                            (Some(old), Some(new)) => {
+                                let anc_new = ancestors(h, *new);
+                                let anc_old = ancestors(h, *old);
+                                anc_new.contains(old)
+                                    && anc_new
+                                        .difference(&anc_old)
+                                        .any(|c| h.commits[*c].time < h.commits[*old].time)
+                            }
+                            _ => false,
+                        };
+                    only_skewed_ff &= skewed_ff;
+                }
+                None => {
+                    if git_skipped_tag_following && server_tags.get(name) == Some(id) {
+                        c.label("git-skipped-tag-following-after-rejection");
+                        continue;
+                    }
+                    only_skewed_ff = false;
+                    differences.push(format!("{name}: gitoxide {id}, git has no such ref"));
+                }
             }
         }
         for (name, id) in &refs_b {
             if !refs_a.contains_key(name) && !backfill_tags.contains(name) {
+                only_skewed_ff = false;
                 differences.push(format!("{name}: git {id}, gitoxide has no such ref"));
             }
         }
+        let sig = if !differences.is_empty() && only_skewed_ff {
+            "fast-forward-rejected-when-new-commits-are-older-than-local-tip"
+        } else {
+            sig
+        };
         if !differences.is_empty() {
             let mirror_v2 = s.specs.iter().any(|x| x == "+refs/*:refs/*") && s.protocol == 2;
             c.fail_sig(
@@ -1137,8 +1186,19 @@ pub fn main() {
         }
         let agit = world.git.at(&a);
         let bgit = world.git.at(&b);
-        if !settle(c, "", fsck(&agit, "gitoxide clone"), "") {
-            return;
+        {
+            let r = fsck(&agit, "gitoxide clone");
+            // Known class: cloning an EMPTY repository over v2 stores refs/remotes/origin/HEAD as a symbolic ref to the
+            // unborn branch, which `git fsck` reports as an error (git clone creates no origin/HEAD there).
+            let sig = match &r {
+                Err(Ok(msg)) if head_mode == 2 && msg.contains("refs/remotes/origin/HEAD: invalid sha1 pointer") => {
+                    "clone-of-empty-repository-leaves-dangling-origin-HEAD"
+                }
+                _ => "",
+            };
+            if !settle(c, sig, r, "") {
+                return;
+            }
         }
         let a_gitdir: PathBuf = if bare { a.clone() } else { a.join(".git") };
         let b_gitdir: PathBuf = b.join(".git");
